@@ -122,7 +122,11 @@ func setLeaf(f reflect.Value, val string) {
 		m := reflect.MakeMap(t)
 		for _, kv := range strings.Split(inner, ",") {
 			p := strings.Split(kv, ":")
-			m.SetMapIndex(reflect.ValueOf(int(atoi(p[0]))), reflect.ValueOf(int(atoi(p[1]))))
+			val := reflect.ValueOf(int(atoi(p[1])))
+			if atoi(p[1]) == 0 { // an entry that is present with a nil value
+				val = reflect.Zero(t.Elem())
+			}
+			m.SetMapIndex(reflect.ValueOf(int(atoi(p[0]))), val)
 		}
 		f.Set(m)
 	default:
@@ -163,7 +167,11 @@ func getLeaf(f reflect.Value) string {
 		var l []kv
 		it := f.MapRange()
 		for it.Next() {
-			l = append(l, kv{it.Key().Interface().(int), it.Value().Interface().(int)})
+			vi := 0
+			if x, ok := it.Value().Interface().(int); ok {
+				vi = x
+			}
+			l = append(l, kv{it.Key().Interface().(int), vi})
 		}
 		sort.Slice(l, func(i, j int) bool { return l[i].k < l[j].k })
 		parts := make([]string, len(l))
@@ -198,7 +206,11 @@ func randLeaf(r *rand.Rand, t reflect.Type, side int, set bool) string {
 		sort.Ints(keys)
 		parts := make([]string, len(keys))
 		for i, k := range keys {
-			parts[i] = fmt.Sprintf("%d:%d", k, base+k)
+			v := base + k
+			if r.Intn(4) == 0 {
+				v = 0 // present, nil value
+			}
+			parts[i] = fmt.Sprintf("%d:%d", k, v)
 		}
 		return "{" + strings.Join(parts, ",") + "}"
 	default:
